@@ -17,6 +17,33 @@ def stateAfter (p : Program) (ops : List Op) : St :=
 theorem NoProj.over {p : Program} (np : NoProj p) : NoProjOverProj p :=
   fun k d hp hk => absurd hk (np k d hp)
 
+theorem ProgAll.mono {P Q : Key → Prop} (h : ∀ x, P x → Q x) : ∀ {prog : Prog}, ProgAll P prog → ProgAll Q prog := by
+  intro prog
+  induction prog with
+  | ret v => intro _; trivial
+  | ask d cont ih => rintro ⟨hd, hc⟩; exact ⟨h d hd, fun v => ih v (hc v)⟩
+  | askAll ks cont ih => rintro ⟨hd, hc⟩; exact ⟨fun d hm => h d (hd d hm), fun vs => ih vs (hc vs)⟩
+
+/-- class A ⊆ `Shape`: no projection reads a projection -/
+theorem NoProjOverProj.shape {p : Program} (pa : NoProjOverProj p) : Shape p :=
+  fun k d hp hk => ProgAll.mono (fun _ h => Or.inl h) (pa k d hp hk)
+
+/-- class B ⊆ `Shape`: every projection is static -/
+theorem StaticProj.shape {p : Program} (wf : WF p) (sp : StaticProj p) : Shape p := by
+  intro k d hp hk
+  refine ProgAll.mono ?_ ((wf k d hp (by rw [hk]; decide) (by rw [hk]; decide)).2 hk)
+  intro x hx
+  rcases hx with h | h
+  · exact Or.inl h
+  · refine Or.inr ⟨h, ?_⟩
+    simp only [kindOf] at h
+    cases hpx : p[x]? with
+    | none => rw [hpx] at h; cases h
+    | some dx =>
+      rw [hpx] at h
+      obtain ⟨ks, hks⟩ := sp x dx hpx (by simpa using h)
+      exact ⟨dx, ks, hpx, hks⟩
+
 theorem stateAfter_inv {p : Program} (wf : WF p) (sh : Shape p) (ops : List Op) :
     Inv p (stateAfter p ops) := by
   have h := runOps_spec wf sh ops {} (Inv.init p)
@@ -168,14 +195,14 @@ def exFS : St := stateAfter exF [.sess [.set 0 1, .set 1 5], .round [5], .sess [
 /-- … or after a session that changes the firewall -/
 def exFU : St := stateAfter exF [.sess [.set 0 1, .set 1 5], .round [5], .sess [.set 0 0]]
 
-theorem exFT_inv : Inv exF exFT := stateAfter_inv exF_wf (Or.inl exF_noProj.over) _
-theorem exFS_inv : Inv exF exFS := stateAfter_inv exF_wf (Or.inl exF_noProj.over) _
-theorem exFU_inv : Inv exF exFU := stateAfter_inv exF_wf (Or.inl exF_noProj.over) _
+theorem exFT_inv : Inv exF exFT := stateAfter_inv exF_wf exF_noProj.over.shape _
+theorem exFS_inv : Inv exF exFS := stateAfter_inv exF_wf exF_noProj.over.shape _
+theorem exFU_inv : Inv exF exFU := stateAfter_inv exF_wf exF_noProj.over.shape _
 
 /-- `exA` after the dependency of key 5 switched to firewall 4 and firewall 4's input changed -/
 def exAS : St := stateAfter exA [.sess [.set 0 0, .set 1 7, .set 2 7], .round [6], .sess [.set 0 1], .round [5],
   .sess [.set 2 8]]
-theorem exAS_inv : Inv exA exAS := stateAfter_inv exA_wf (Or.inl exA_noProj.over) _
+theorem exAS_inv : Inv exA exAS := stateAfter_inv exA_wf exA_noProj.over.shape _
 
 theorem exD_pf : NoProjOverProj exD := by
   intro k d h hk
@@ -199,11 +226,11 @@ theorem exC_pf : NoProjOverProj exC := by
 
 /-- `exD` (firewall + projection diamond) after a session that changes the firewall -/
 def exDU : St := stateAfter exD [.sess [.set 0 1, .set 1 5], .round [5], .sess [.set 0 0]]
-theorem exDU_inv : Inv exD exDU := stateAfter_inv exD_wf (Or.inl exD_pf) _
+theorem exDU_inv : Inv exD exDU := stateAfter_inv exD_wf exD_pf.shape _
 
 /-- `exC` before the last round of the F1c history -/
 def exCS : St := stateAfter exC [.sess [.set 0 0, .set 1 5], .round [6], .sess [.set 0 1], .round [6], .sess [.set 1 6]]
-theorem exCS_inv : Inv exC exCS := stateAfter_inv exC_wf (Or.inl exC_pf) _
+theorem exCS_inv : Inv exC exCS := stateAfter_inv exC_wf exC_pf.shape _
 
 -- ------------------------------------------------------------------ class B: static projection chains
 
@@ -263,6 +290,80 @@ theorem exS_not_classA : ¬ NoProjOverProj exS := by
 
 /-- `exS` after the first round and the session that changes the firewall -/
 def exSU : St := stateAfter exS [.sess [.set 0 1], .round [5], .sess [.set 0 2]]
-theorem exSU_inv : Inv exS exSU := stateAfter_inv exS_wf (Or.inr exS_static) _
+theorem exSU_inv : Inv exS exSU := stateAfter_inv exS_wf (exS_static.shape exS_wf) _
+
+-- ------------------------------------------------------------------ a dynamic projection on top of a static chain
+
+/-- `exS` with a DYNAMIC projection on top: key 4 reads the firewall and then, depending on its value,
+    the static projection 3 or the static projection 2.  Neither class A nor class B. -/
+def exT : Program :=
+  [ { kind := .input, prog := .ret 0 },
+    { kind := .firewall, prog := .ask 0 fun a => .ret (if a = 3 then 1 else a) },
+    { kind := .projection, prog := .ask 1 fun a => .ret (a + 1) },
+    { kind := .projection, prog := .ask 2 fun a => .ret (a * 2) },
+    { kind := .projection, prog := .ask 1 fun a => if a = 1 then .ask 3 (fun b => .ret b) else .ask 2 (fun b => .ret b) },
+    { kind := .normal, prog := .ask 4 fun a => .ret a } ]
+
+theorem exT_wf : WF exT := by
+  intro k d h hi he
+  match k, h with
+  | 0, h => simp [exT] at h; subst h; simp at hi
+  | 1, h => simp [exT] at h; subst h; exact ⟨⟨by decide, fun _ => trivial⟩, fun h => by cases h⟩
+  | 2, h =>
+    simp [exT] at h; subst h
+    exact ⟨⟨by decide, fun _ => trivial⟩, fun _ => ⟨Or.inl (by decide), fun _ => trivial⟩⟩
+  | 3, h =>
+    simp [exT] at h; subst h
+    exact ⟨⟨by decide, fun _ => trivial⟩, fun _ => ⟨Or.inr (by decide), fun _ => trivial⟩⟩
+  | 4, h =>
+    simp [exT] at h; subst h
+    refine ⟨⟨by decide, fun c => ?_⟩, fun _ => ⟨Or.inl (by decide), fun c => ?_⟩⟩
+    · show Prog.Below 4 (if c = 1 then _ else _)
+      split <;> exact ⟨by decide, fun _ => trivial⟩
+    · show ProgAll _ (if c = 1 then _ else _)
+      split <;> exact ⟨Or.inr (by decide), fun _ => trivial⟩
+  | 5, h => simp [exT] at h; subst h; exact ⟨⟨by decide, fun _ => trivial⟩, fun h => by cases h⟩
+  | n + 6, h => simp [exT] at h
+
+theorem exT_static2 : IsStaticKey exT 2 := ⟨_, [1], rfl, [], rfl, fun _ => rfl⟩
+theorem exT_static3 : IsStaticKey exT 3 := ⟨_, [2], rfl, [], rfl, fun _ => rfl⟩
+
+theorem exT_shape : Shape exT := by
+  intro k d h hk
+  match k, h with
+  | 0, h | 1, h | 5, h => simp [exT] at h; subst h; simp at hk
+  | 2, h => simp [exT] at h; subst h; exact ⟨Or.inl (by decide), fun _ => trivial⟩
+  | 3, h => simp [exT] at h; subst h; exact ⟨Or.inr ⟨by decide, exT_static2⟩, fun _ => trivial⟩
+  | 4, h =>
+    simp [exT] at h; subst h
+    refine ⟨Or.inl (by decide), fun c => ?_⟩
+    show ProgAll _ (if c = 1 then _ else _)
+    split
+    · exact ⟨Or.inr ⟨by decide, exT_static3⟩, fun _ => trivial⟩
+    · exact ⟨Or.inr ⟨by decide, exT_static2⟩, fun _ => trivial⟩
+  | n + 6, h => simp [exT] at h
+
+/-- `exT` is in neither of the two smaller classes -/
+theorem exT_not_classA : ¬ NoProjOverProj exT := by
+  intro h
+  have := h 3 { kind := .projection, prog := .ask 2 fun a => .ret (a * 2) } (by simp [exT]) rfl
+  have h2 : kindOf exT 2 = some Kind.firewall := this.1
+  simp [kindOf, exT] at h2
+
+theorem exT_not_classB : ¬ StaticProj exT := by
+  intro h
+  obtain ⟨ks, rest, _, hst⟩ := h 4 _ (by simp [exT]; rfl) rfl
+  obtain ⟨r1, e1, _⟩ := hst 1
+  obtain ⟨r0, e0, _⟩ := hst 0
+  rw [e1] at e0
+  cases e0
+
+def exTOps : List Op :=
+  [ .sess [.set 0 1], .round [5], .sess [.set 0 2], .round [5], .sess [.set 0 2], .round [5],
+    .sess [.set 0 3], .round [5, 3] ]
+
+/-- `exT` after the first round and the session that changes the firewall -/
+def exTU : St := stateAfter exT [.sess [.set 0 1], .round [5], .sess [.set 0 2]]
+theorem exTU_inv : Inv exT exTU := stateAfter_inv exT_wf exT_shape _
 
 end Qbice.CoreFw
